@@ -332,7 +332,7 @@ func ruleDynCalls(p *Program, r *Reporter) {
 				if prm, ok := cc.Value.(*ssa.Parameter); ok {
 					okAll, n := callbackArgsAreModule(p, fn, prm, 0)
 					if okAll && n > 0 {
-						r.OkNT(key, p.Pos(ci.Pos()), fmt.Sprintf("callback parameter: all %d callers pass closures or methods of the module", n))
+						r.OkNT(key, p.Pos(ci.Pos()), fmt.Sprintf("callback parameter: all %d callers pass closures or methods of the module (or plain functions of a standard package that does no I/O)", n))
 					} else {
 						r.Fail(key, p.Pos(ci.Pos()), "callback parameter whose callers cannot all be resolved to functions of the module")
 					}
@@ -343,6 +343,12 @@ func ruleDynCalls(p *Program, r *Reporter) {
 				// functions of the module
 				if g, fns, ok := moduleFuncTable(p, cc.Value); ok {
 					r.OkNT(key, p.Pos(ci.Pos()), fmt.Sprintf("handler table %s: written only while the package is initialised, with %d function(s) of the module", g.Name(), len(fns)))
+					continue
+				}
+				// a function literal kept in a local variable and called by that
+				// name — also from inside another literal that captured the variable
+				if fns, ok := localClosureTargets(cc.Value, 0); ok {
+					r.OkNT(key, p.Pos(ci.Pos()), fmt.Sprintf("local variable that only ever holds %d function literal(s) of the module", len(fns)))
 					continue
 				}
 				// closure called directly (defer func(){}() etc.)
@@ -363,6 +369,109 @@ func ruleDynCalls(p *Program, r *Reporter) {
 			}
 		}
 	}
+}
+
+// localClosureTargets: v is the content of a local variable — the function's
+// own, or one of the enclosing function captured by reference — every store
+// into which is a function literal of the module.
+func localClosureTargets(v ssa.Value, depth int) ([]*ssa.Function, bool) {
+	if depth > 3 {
+		return nil, false
+	}
+	for {
+		if ct, ok := v.(*ssa.ChangeType); ok {
+			v = ct.X
+			continue
+		}
+		break
+	}
+	fromCell := func(cell ssa.Value) ([]*ssa.Function, bool) {
+		al, ok := cell.(*ssa.Alloc)
+		if !ok || al.Referrers() == nil {
+			return nil, false
+		}
+		var out []*ssa.Function
+		for _, ref := range *al.Referrers() {
+			switch x := ref.(type) {
+			case *ssa.Store:
+				if x.Addr != ssa.Value(al) {
+					return nil, false // the cell's address stored somewhere
+				}
+				val := x.Val
+				for {
+					if ct, ok := val.(*ssa.ChangeType); ok {
+						val = ct.X
+						continue
+					}
+					break
+				}
+				mc, ok := val.(*ssa.MakeClosure)
+				if !ok {
+					if f, isF := val.(*ssa.Function); isF && fnPkg(f) != nil && IsLibPath(fnPkg(f).Pkg.Path()) {
+						out = append(out, f)
+						continue
+					}
+					return nil, false
+				}
+				f, ok := mc.Fn.(*ssa.Function)
+				if !ok || fnPkg(f) == nil || !IsLibPath(fnPkg(f).Pkg.Path()) {
+					return nil, false
+				}
+				out = append(out, f)
+			case *ssa.UnOp, *ssa.MakeClosure, *ssa.DebugRef:
+				// loads, and captures by other literals (which can only load or store it: seen there)
+			default:
+				return nil, false
+			}
+		}
+		return out, len(out) > 0
+	}
+	ld, ok := v.(*ssa.UnOp)
+	if !ok || ld.Op != token.MUL {
+		return nil, false
+	}
+	switch cell := ld.X.(type) {
+	case *ssa.Alloc:
+		return fromCell(cell)
+	case *ssa.FreeVar:
+		fn := cell.Parent()
+		idx := -1
+		for i, fv := range fn.FreeVars {
+			if fv == cell {
+				idx = i
+			}
+		}
+		par := fn.Parent()
+		if idx < 0 || par == nil {
+			return nil, false
+		}
+		var out []*ssa.Function
+		n := 0
+		for _, b := range par.Blocks {
+			for _, ins := range b.Instrs {
+				mc, ok := ins.(*ssa.MakeClosure)
+				if !ok || mc.Fn != ssa.Value(fn) || idx >= len(mc.Bindings) {
+					continue
+				}
+				n++
+				fs, ok := fromCell(mc.Bindings[idx])
+				if !ok {
+					return nil, false
+				}
+				out = append(out, fs...)
+			}
+		}
+		// stores made through the captured variable inside the literal itself
+		if cell.Referrers() != nil {
+			for _, ref := range *cell.Referrers() {
+				if st, ok := ref.(*ssa.Store); ok && st.Addr == ssa.Value(cell) {
+					return nil, false
+				}
+			}
+		}
+		return out, n > 0 && len(out) > 0
+	}
+	return nil, false
 }
 
 // callbackArgsAreModule: every call of fn passes, for parameter prm, a module
@@ -405,7 +514,14 @@ func callbackArgsAreModule(p *Program, fn *ssa.Function, prm *ssa.Parameter, dep
 				}
 				n++
 			case *ssa.Function:
-				if fnPkg(x) == nil || !strings.HasPrefix(fnPkg(x).Pkg.Path(), Mod) {
+				// a function of the module — or a plain function of one of the
+				// standard packages that do no I/O (strings.ToLower handed to a
+				// helper): what it may do is R-EFFECTS' business, and a function of
+				// such a package calls nothing of the host's
+				switch {
+				case fnPkg(x) != nil && strings.HasPrefix(fnPkg(x).Pkg.Path(), Mod):
+				case x.Pkg != nil && pureStdPackages[x.Pkg.Pkg.Path()] != "" && x.Signature.Recv() == nil && x.Pkg.Pkg.Path() != "sort" && x.Pkg.Pkg.Path() != "sync":
+				default:
 					ok = false
 				}
 				n++
